@@ -60,7 +60,11 @@ function validate(ctx, content)
   if io then
     local f = io.open(LOG, "a")
     if f then
-      f:write(tostring(#payload) .. ":" .. payload .. "\n")
+      -- one record = one write(2): with the default buffer a long record leaves in pieces, and
+      -- records appended by other runtime threads at the same moment land between them
+      local rec = tostring(#payload) .. ":" .. payload .. "\n"
+      f:setvbuf("full", #rec + 64)
+      f:write(rec)
       f:close()
     end
   end
